@@ -28,6 +28,7 @@ What is proved here:
    transaction does not disturb another.
 -/
 import Lemmas.Transport
+import Lemmas.Literal
 open GoStd Sip Proxy
 
 namespace Props.C12
@@ -36,9 +37,9 @@ abbrev Table := List (Bytes × TransEntry)
 
 /-! ### 1. keys -/
 
-/-- The transaction id is `method ++ "-" ++ branch`, never empty. -/
+/-- The transaction id is `method ++ " " ++ branch`, never empty. -/
 theorem C12_transaction_id_shape (cm : List (Bytes × Bytes)) (m : Message) (tid : Bytes)
-    (h : (getClientTransaction cm m).1 = some tid) : ∃ method br, tid = method ++ [45] ++ br ∧ tid ≠ [] := by
+    (h : (getClientTransaction cm m).1 = some tid) : ∃ method br, tid = method ++ [32] ++ br ∧ tid ≠ [] := by
   unfold getClientTransaction at h
   split at h
   · cases h
@@ -51,22 +52,22 @@ theorem C12_transaction_id_shape (cm : List (Bytes × Bytes)) (m : Message) (tid
         · simp only [Option.some.injEq] at h
           exact ⟨_, _, h.symm, by rw [← h]; simp⟩
 
-/-- For one host:port, keys of transactions with '-'-free methods coincide only when method and
-branch coincide. -/
+/-- For one host:port, keys of transactions whose methods hold no blank coincide only when method and
+branch coincide. (A CSeq method never holds a blank: `Lemmas.parseCSeq_method_no_blank`.) -/
 theorem C12_key_injective (h : Bytes) (p : Int) (m₁ b₁ m₂ b₂ : Bytes)
-    (h₁ : (45 : UInt8) ∉ m₁) (h₂ : (45 : UInt8) ∉ m₂)
-    (hk : fullAddr (str "tcp") h p (m₁ ++ [45] ++ b₁) = fullAddr (str "tcp") h p (m₂ ++ [45] ++ b₂)) :
+    (h₁ : (32 : UInt8) ∉ m₁) (h₂ : (32 : UInt8) ∉ m₂)
+    (hk : fullAddr (str "tcp") h p (m₁ ++ [32] ++ b₁) = fullAddr (str "tcp") h p (m₂ ++ [32] ++ b₂)) :
     m₁ = m₂ ∧ b₁ = b₂ := by
   have := Lemmas.fullAddr_tcp_tid_injective h p _ _ (by simp) (by simp) hk
-  exact Lemmas.append_sep_injective 45 _ _ _ _ h₁ h₂ this
+  exact Lemmas.append_sep_injective 32 _ _ _ _ h₁ h₂ this
 
 /-- Whatever the method looks like, for one host:port the key determines the whole transaction id. -/
 theorem C12_key_tid_injective (h : Bytes) (p : Int) (tid₁ tid₂ : Bytes) (h₁ : tid₁ ≠ []) (h₂ : tid₂ ≠ [])
     (e : fullAddr (str "tcp") h p tid₁ = fullAddr (str "tcp") h p tid₂) : tid₁ = tid₂ :=
   Lemmas.fullAddr_tcp_tid_injective h p tid₁ tid₂ h₁ h₂ e
 
-/-- Why the method must be free of '-': method `A-B` with branch `C` and method `A` with branch `B-C`
-get the same key. -/
+/-- Why the separator is not '-' (it was, before the repair recorded as D18b in DESIGN.md): method `A-B`
+with branch `C` and method `A` with branch `B-C` would get the same key. -/
 theorem C12_key_collision_with_dash (h : Bytes) (p : Int) :
     fullAddr (str "tcp") h p (([65, 45, 66] : Bytes) ++ [45] ++ [67]) =
       fullAddr (str "tcp") h p (([65] : Bytes) ++ [45] ++ [66, 45, 67])
@@ -137,8 +138,8 @@ theorem C12_registered_lookup (cfg : Cfg) (hs : cfg.supported.contains (str "tcp
 
 /-- Another transaction of the same host:port is an "other key", whatever connection it came on. -/
 theorem C12_other_transaction_other_key (h : Bytes) (p : Int) (m₁ b₁ m₂ b₂ : Bytes)
-    (h₁ : (45 : UInt8) ∉ m₁) (h₂ : (45 : UInt8) ∉ m₂) (hne : m₁ ≠ m₂ ∨ b₁ ≠ b₂) :
-    fullAddr (str "tcp") h p (m₁ ++ [45] ++ b₁) ≠ fullAddr (str "tcp") h p (m₂ ++ [45] ++ b₂) := by
+    (h₁ : (32 : UInt8) ∉ m₁) (h₂ : (32 : UInt8) ∉ m₂) (hne : m₁ ≠ m₂ ∨ b₁ ≠ b₂) :
+    fullAddr (str "tcp") h p (m₁ ++ [32] ++ b₁) ≠ fullAddr (str "tcp") h p (m₂ ++ [32] ++ b₂) := by
   intro e
   obtain ⟨rfl, rfl⟩ := C12_key_injective h p m₁ b₁ m₂ b₂ h₁ h₂ e
   rcases hne with hne | hne <;> exact hne rfl
@@ -149,26 +150,26 @@ the other on any table; afterwards each transaction's lookup answers with its ow
 changes nothing, so responses may be routed in any order and any number of times. -/
 theorem C12_two_connections_same_address (cfg : Cfg) (hs : cfg.supported.contains (str "tcp") = true)
     (tr : Table) (h : Bytes) (p : Int) (m₁ b₁ m₂ b₂ : Bytes) (c₁ c₂ : Nat)
-    (h₁ : (45 : UInt8) ∉ m₁) (h₂ : (45 : UInt8) ∉ m₂) (hne : m₁ ≠ m₂ ∨ b₁ ≠ b₂) :
+    (h₁ : (32 : UInt8) ∉ m₁) (h₂ : (32 : UInt8) ∉ m₂) (hne : m₁ ≠ m₂ ∨ b₁ ≠ b₂) :
     ∃ trA keyA eA trB keyB eB,
-      getTransport cfg tr (str "tcp") h p (m₁ ++ [45] ++ b₁) = some (trA, keyA, eA) ∧
-      getTransport cfg (assocSet trA keyA { eA with primary := some (.conn c₁) }) (str "tcp") h p (m₂ ++ [45] ++ b₂)
+      getTransport cfg tr (str "tcp") h p (m₁ ++ [32] ++ b₁) = some (trA, keyA, eA) ∧
+      getTransport cfg (assocSet trA keyA { eA with primary := some (.conn c₁) }) (str "tcp") h p (m₂ ++ [32] ++ b₂)
         = some (trB, keyB, eB) ∧
-      (∃ e, getTransport cfg (assocSet trB keyB { eB with primary := some (.conn c₂) }) (str "tcp") h p (m₁ ++ [45] ++ b₁)
+      (∃ e, getTransport cfg (assocSet trB keyB { eB with primary := some (.conn c₂) }) (str "tcp") h p (m₁ ++ [32] ++ b₁)
               = some (assocSet trB keyB { eB with primary := some (.conn c₂) }, keyA, e)
             ∧ ∀ d, entrySend e d = [.conn c₁ d]) ∧
-      (∃ e, getTransport cfg (assocSet trB keyB { eB with primary := some (.conn c₂) }) (str "tcp") h p (m₂ ++ [45] ++ b₂)
+      (∃ e, getTransport cfg (assocSet trB keyB { eB with primary := some (.conn c₂) }) (str "tcp") h p (m₂ ++ [32] ++ b₂)
               = some (assocSet trB keyB { eB with primary := some (.conn c₂) }, keyB, e)
             ∧ ∀ d, entrySend e d = [.conn c₂ d]) := by
-  obtain ⟨trA, eA, hA⟩ := Lemmas.getTransport_tcp_some cfg tr h p (m₁ ++ [45] ++ b₁) hs
+  obtain ⟨trA, eA, hA⟩ := Lemmas.getTransport_tcp_some cfg tr h p (m₁ ++ [32] ++ b₁) hs
   obtain ⟨trB, eB, hB⟩ := Lemmas.getTransport_tcp_some cfg
-    (assocSet trA (fullAddr (str "tcp") h p (m₁ ++ [45] ++ b₁)) { eA with primary := some (.conn c₁) })
-    h p (m₂ ++ [45] ++ b₂) hs
+    (assocSet trA (fullAddr (str "tcp") h p (m₁ ++ [32] ++ b₁)) { eA with primary := some (.conn c₁) })
+    h p (m₂ ++ [32] ++ b₂) hs
   have hkeys := C12_other_transaction_other_key h p m₂ b₂ m₁ b₁ h₂ h₁
     (by rcases hne with e | e; exact Or.inl (Ne.symm e); exact Or.inr (Ne.symm e))
   refine ⟨trA, _, eA, trB, _, eB, hA, hB, ?_, ?_⟩
   · have hr := C12_registered_lookup cfg hs tr trA h p _ _ eA c₁ hA
-      (assocSet trB (fullAddr (str "tcp") h p (m₂ ++ [45] ++ b₂)) { eB with primary := some (.conn c₂) })
+      (assocSet trB (fullAddr (str "tcp") h p (m₂ ++ [32] ++ b₂)) { eB with primary := some (.conn c₂) })
       (Reach.step (Reach.step (Reach.refl _) (Op.lookup _ _ _ _ _ _ _ _ hB)) (Op.store _ _ _ hkeys))
     exact ⟨_, hr.1, hr.2⟩
   · have hr := C12_registered_lookup cfg hs _ trB h p _ _ eB c₂ hB _ (Reach.refl _)
@@ -330,6 +331,59 @@ theorem C12_same_hop_same_connection (cfg : Cfg) (hs : cfg.supported.contains (s
   rw [htr, hrt, C12_registration_key_is_lookup_key cfg hop.host hb]
   rfl
 
+/-! ### 6. transaction ids of received messages -/
+
+/-- every header still carries the text it was received with (as after `parseMessage`) -/
+def AllRaw (m : Message) : Prop := ∀ h ∈ m.headers, ∃ s, h.value = .raw s
+
+theorem findHeader_mem {cm : List (Bytes × Bytes)} {hs : List Header} {n : Bytes} {h : Header}
+    (hf : findHeader cm hs n = some h) : h ∈ hs := by
+  unfold findHeader at hf
+  exact List.mem_of_find?_eq_some hf
+
+/-- The method part of a transaction id computed from a received message holds no blank, so the id
+splits into (method, branch) in one way only: no hypothesis on the method is left. -/
+theorem C12_tid_method_no_blank (cm : List (Bytes × Bytes)) (m : Message) (tid : Bytes) (hraw : AllRaw m)
+    (h : (getClientTransaction cm m).1 = some tid) :
+    ∃ method br, tid = method ++ [32] ++ br ∧ (32 : UInt8) ∉ method := by
+  unfold getClientTransaction at h
+  split at h
+  · cases h
+  · rename_i c m1 hc
+    have hm : (32 : UInt8) ∉ c.method := by
+      unfold getCSeq at hc
+      split at hc
+      · cases hc
+      · rename_i hd hf
+        obtain ⟨s, hs⟩ := hraw hd (findHeader_mem hf)
+        rw [hs] at hc
+        simp only at hc
+        split at hc
+        · cases hc
+        · rename_i c' hp
+          simp only [Option.some.injEq, Prod.mk.injEq] at hc
+          rw [← hc.1]
+          exact Lemmas.parseCSeq_method_no_blank hp
+    split at h
+    · cases h
+    · split at h
+      · cases h
+      · split at h
+        · cases h
+        · simp only [Option.some.injEq] at h
+          exact ⟨_, _, h.symm, hm⟩
+
+/-- Two received messages whose transaction ids give the same key for one host:port have the same CSeq
+method and the same branch: distinct transactions never share a key. -/
+theorem C12_distinct_transactions_distinct_keys (cm : List (Bytes × Bytes)) (h : Bytes) (p : Int)
+    (ma mb : Message) (ta tb : Bytes) (hra : AllRaw ma) (hrb : AllRaw mb)
+    (ha : (getClientTransaction cm ma).1 = some ta) (hb : (getClientTransaction cm mb).1 = some tb)
+    (hk : fullAddr (str "tcp") h p ta = fullAddr (str "tcp") h p tb) : ta = tb := by
+  obtain ⟨m₁, b₁, rfl, h₁⟩ := C12_tid_method_no_blank cm ma ta hra ha
+  obtain ⟨m₂, b₂, rfl, h₂⟩ := C12_tid_method_no_blank cm mb tb hrb hb
+  obtain ⟨rfl, rfl⟩ := C12_key_injective h p m₁ b₁ m₂ b₂ h₁ h₂ hk
+  rfl
+
 /-! ### non-vacuity -/
 
 /-- a configuration that supports tcp -/
@@ -339,12 +393,12 @@ def cfg0 : Cfg :=
 
 theorem cfg0_tcp : cfg0.supported.contains (str "tcp") = true := by rw [Lemmas.str_tcp]; decide
 
-/-- INVITE-z9a on connection 1 and INVITE-z9b on connection 2, both from 10.0.0.1:5060. -/
+/-- INVITE z9a on connection 1 and INVITE z9b on connection 2, both from 10.0.0.1:5060. -/
 example := C12_two_connections_same_address cfg0 cfg0_tcp [] [49, 48, 46, 48, 46, 48, 46, 49] 5060
   [73, 78, 86, 73, 84, 69] [122, 57, 97] [73, 78, 86, 73, 84, 69] [122, 57, 98] 1 2
   (by decide) (by decide) (Or.inr (by decide))
 
-/-- the hypotheses of `C12_key_injective` hold for INVITE-z9a = INVITE-z9a -/
+/-- the hypotheses of `C12_key_injective` hold for INVITE z9a = INVITE z9a -/
 example := C12_key_injective [49, 48, 46, 48, 46, 48, 46, 49] 5060
   [73, 78, 86, 73, 84, 69] [122, 57, 97] [73, 78, 86, 73, 84, 69] [122, 57, 97] (by decide) (by decide) rfl
 
@@ -384,7 +438,7 @@ theorem hop0 : getNextResponseHop cfg0 req0 =
   simp only [getNextResponseHop, getVia, findHeader, viaName, Lemmas.str_via, Lemmas.str_received]
   decide
 
-theorem tid0 : getClientTransaction cfg0.cm req0 = (some [73, 78, 86, 73, 84, 69, 45, 122, 57, 97], req0) := by
+theorem tid0 : getClientTransaction cfg0.cm req0 = (some [73, 78, 86, 73, 84, 69, 32, 122, 57, 97], req0) := by
   simp only [getClientTransaction, getCSeq, getVia, findHeader, viaName, cseqName, Lemmas.str_via, Lemmas.str_cseq, Lemmas.str_branch]
   decide
 
@@ -394,24 +448,24 @@ example := C12_request_registers cfg0 cfg0_tcp {} ev0 7 _ _ _ _ (by decide) rfl 
 def rsp0 : Message := { req0 with start := .status [83, 73, 80, 47, 50, 46, 48] 180 [82] }
 def hopR : Hop := { host := [49, 48, 46, 48, 46, 48, 46, 49], port := 5060, transport := [84, 67, 80] }
 
-theorem tidR : getClientTransaction cfg0.cm rsp0 = (some [73, 78, 86, 73, 84, 69, 45, 122, 57, 97], rsp0) := by
+theorem tidR : getClientTransaction cfg0.cm rsp0 = (some [73, 78, 86, 73, 84, 69, 32, 122, 57, 97], rsp0) := by
   simp only [getClientTransaction, getCSeq, getVia, findHeader, viaName, cseqName, Lemmas.str_via, Lemmas.str_cseq, Lemmas.str_branch]
   decide
 
-theorem key0 : fullAddr (str "tcp") (regHost cfg0 hopR.host) hopR.port [73, 78, 86, 73, 84, 69, 45, 122, 57, 97] =
-    [116, 99, 112, 58, 47, 47, 49, 48, 46, 48, 46, 48, 46, 49, 58, 53, 48, 54, 48, 45, 73, 78, 86, 73, 84, 69, 45, 122, 57, 97] := by
+theorem key0 : fullAddr (str "tcp") (regHost cfg0 hopR.host) hopR.port [73, 78, 86, 73, 84, 69, 32, 122, 57, 97] =
+    [116, 99, 112, 58, 47, 47, 49, 48, 46, 48, 46, 48, 46, 49, 58, 53, 48, 54, 48, 45, 73, 78, 86, 73, 84, 69, 32, 122, 57, 97] := by
   simp only [fullAddr, Lemmas.str_tcp, Lemmas.str_schemeSep]
   decide
 
 theorem keyR : fullAddr (toLower hopR.transport) ((getIp cfg0 hopR.host).getD hopR.host) hopR.port
       ((getClientTransaction cfg0.cm rsp0).1.getD []) =
-    fullAddr (str "tcp") (regHost cfg0 hopR.host) hopR.port [73, 78, 86, 73, 84, 69, 45, 122, 57, 97] := by
+    fullAddr (str "tcp") (regHost cfg0 hopR.host) hopR.port [73, 78, 86, 73, 84, 69, 32, 122, 57, 97] := by
   rw [tidR, key0]
   simp only [fullAddr, Lemmas.str_tcp, Lemmas.str_schemeSep]
   decide
 
 /-- hypotheses of `C12_response_on_request_connection` (and of `C12_sendMessage_on_conn`, `C12_invariant`):
-the 180 to INVITE-z9a goes out on connection 7 after another key was written in between -/
+the 180 to INVITE z9a goes out on connection 7 after another key was written in between -/
 example : (sendMessage cfg0 { trans := assocSet (handleRawMessage cfg0 {} ev0).1.trans [1] { primary := none, secondary := none } }
             hopR rsp0).2 = [.conn 7 (rsp0.bytes cfg0.cm)] := by
   have := C12_response_on_request_connection cfg0 cfg0_tcp {} ev0 7 hopR req0 req0 _ (by decide) rfl
@@ -438,10 +492,10 @@ the existence of the lookup's answer) -/
 example := C12_remove_exact cfg0 [([1], { primary := none, secondary := none })] [84, 67, 80] [49] 5060 [65, 45, 122] [1]
   (by decide)
 example : ∃ tr' key e, getTransport cfg0 (removeTransport cfg0 (handleRawMessage cfg0 {} ev0).1.trans (str "tcp")
-            hopR.host 5060 [73, 78, 86, 73, 84, 69, 45, 122, 57, 97]) (str "tcp") hopR.host 5060
-            [73, 78, 86, 73, 84, 69, 45, 122, 57, 97] = some (tr', key, e) ∧ e.primary = none := by
+            hopR.host 5060 [73, 78, 86, 73, 84, 69, 32, 122, 57, 97]) (str "tcp") hopR.host 5060
+            [73, 78, 86, 73, 84, 69, 32, 122, 57, 97] = some (tr', key, e) ∧ e.primary = none := by
   obtain ⟨tr', e, h⟩ := Lemmas.getTransport_tcp_some cfg0 (removeTransport cfg0 (handleRawMessage cfg0 {} ev0).1.trans (str "tcp")
-            hopR.host 5060 [73, 78, 86, 73, 84, 69, 45, 122, 57, 97]) hopR.host 5060 [73, 78, 86, 73, 84, 69, 45, 122, 57, 97] cfg0_tcp
+            hopR.host 5060 [73, 78, 86, 73, 84, 69, 32, 122, 57, 97]) hopR.host 5060 [73, 78, 86, 73, 84, 69, 32, 122, 57, 97] cfg0_tcp
   exact ⟨tr', _, e, h, C12_after_remove_fresh cfg0 cfg0_tcp _ _ _ _ _ _ _ h⟩
 
 /-- hypotheses of `C12_sendMessage_on_conn` / `C12_sendMessage_table`, for every message: a table that
@@ -460,5 +514,18 @@ example (m : Message) :
     simp [st, assocGet]
   exact ⟨C12_sendMessage_on_conn cfg0 st hopR m _ 7 (by decide) hget rfl,
          C12_sendMessage_table cfg0 st hopR m _ (by decide) hget⟩
+
+/-- hypotheses of `C12_tid_method_no_blank`: a received request (all values raw) with an extension method
+that contains '-' -/
+def reqRaw : Message :=
+  { start := .request (str "PING-x") (.abs [120]) (str "SIP/2.0"),
+    headers := [{ name := str "Via", value := .raw (str "SIP/2.0/TCP 10.0.0.1:5060;branch=z9a") },
+                { name := str "CSeq", value := .raw (str "1 PING-x") }],
+    body := [] }
+example : AllRaw reqRaw := by
+  intro h hm
+  simp only [reqRaw, List.mem_cons, List.mem_nil_iff, or_false] at hm
+  rcases hm with rfl | rfl <;> exact ⟨_, rfl⟩
+example : (getClientTransaction cfg0.cm reqRaw).1 = some (str "PING-x z9a") := by decide +kernel
 
 end Props.C12
